@@ -16,12 +16,14 @@ import (
 type logEntry struct {
 	index uint64
 	evs   []hashing.Digest
+	term  uint64 // raft term of the entry: non-decreasing along the log, a new one after an election
 }
 
 func genLog(rng *cq.Rng, tag string, m int) []logEntry {
 	var l []logEntry
 	idx := uint64(1 + rng.Intn(3))
 	ev := uint64(0)
+	term := uint64(1)
 	for i := 0; i < m; i++ {
 		k := 1
 		if rng.Intn(3) == 0 {
@@ -36,7 +38,10 @@ func genLog(rng *cq.Rng, tag string, m int) []logEntry {
 			evs = append(evs, digestOf(tag, ev))
 			ev++
 		}
-		l = append(l, logEntry{idx, evs})
+		if rng.Intn(3) == 0 {
+			term += uint64(1 + rng.Intn(2)) // an election happened before this entry (restart, leadership change)
+		}
+		l = append(l, logEntry{idx, evs, term})
 		idx += uint64(1 + rng.Intn(3)) // raft interleaves configuration/noop entries
 	}
 	return l
@@ -78,7 +83,7 @@ func fsmCmd(out *cq.Out, seed uint64, tier string) {
 				e := lg[j]
 				var snaps []*balloon.Snapshot
 				var already bool
-				panicked, msg := cq.Catch(func() { snaps, already = n.VApply(e.index, e.evs) })
+				panicked, msg := cq.Catch(func() { snaps, already = n.VApplyT(e.index, e.term, e.evs) })
 				switch {
 				case panicked:
 					ds = append(ds, fmt.Sprintf("(%s,%d%%nat,(2%%N,0%%N,0%%nat))", cq.N(e.index), len(e.evs)))
